@@ -82,7 +82,7 @@ let ofr_str = function Some r -> fr_str r | None -> "None"
 
 let cmd_bloom args =
   match args with
-  | ["new"; id; cfghex; hashers; bits] ->
+  | ["new"; id; cfghex; hashers; bits] | ["newbits"; id; cfghex; hashers; bits] ->
     Hashtbl.replace blooms id (bloom_new (n_of_string bits) (n_of_string hashers) (bytes_of_hex cfghex));
     emit ("bits " ^ bits)
   | ["add"; id; key] ->
@@ -121,6 +121,7 @@ let outs : (int, n list) Hashtbl.t = Hashtbl.create 8
 (* ---------- storage (L3) ---------- *)
 let st : storage ref = ref init_storage
 let st_k = ref 4
+let st_key_le = ref false   (* cfg order=le: the index probe's key type is ordered as a little-endian number *)
 let st_cfg = ref { c_dup = true; c_maxrec = n_of_int 1000000; c_maxsize = n_of_int 1000000000 }
 let tainted_ref = ref false
 let hard_taint = ref false   (* the model lost track of the files themselves (faults, cancellations) *)
@@ -197,6 +198,7 @@ let cmd_cfg args =
   List.iter (fun tok ->
       match String.split_on_char '=' tok with
       | ["K"; v] -> st_k := int_of_string v
+      | ["order"; v] -> st_key_le := (v = "le")
       | ["dup"; v] -> st_cfg := { !st_cfg with c_dup = (v = "1") }
       | ["maxrec"; v] -> st_cfg := { !st_cfg with c_maxrec = n_of_string v }
       | ["maxsize"; v] -> st_cfg := { !st_cfg with c_maxsize = n_of_string v }
@@ -477,9 +479,16 @@ let probe_bloom_of cfg =
 let probe_meta k p =
   let braw = (match p.pbloom with Some b -> bloom_to_raw b | None -> None) in
   filters_bytes (n_of_int k) p.prange braw
+let rev_hex s =
+  let n = String.length s / 2 in
+  String.concat "" (List.init n (fun i -> String.sub s (2 * (n - 1 - i)) 2))
 let cmd_idx args =
   let k = !st_k in
   let kf h = h.ih_key in
+  (* the model's key is a point of a total order (N); `order=le`: the order of the key type is the little-endian value of
+     its bytes, so that is the number the model works with (the byte image of the index file is then not compared) *)
+  let n_of_hex s = if !st_key_le then n_of_hex (rev_hex s) else n_of_hex s in
+  let be_bytes kk n = if !st_key_le then List.rev (be_bytes kk n) else be_bytes kk n in
   match args with
   | ["new"; id; bloom] ->
     Hashtbl.replace probes id { pmem = []; pondisk = false; pfile = None; prange = range_empty;
@@ -532,6 +541,7 @@ let cmd_idx args =
        | None -> emit "idx load Err ?")
   | ["filehex"; id] ->
     let p = Hashtbl.find probes id in
+    if !st_key_le then emit "*" else
     (match p.pfilebytes with Some b -> emit ("idx filehex " ^ hex_of_bytes b) | None -> emit "idx filehex absent")
   | ["clear"; id] ->
     let p = Hashtbl.find probes id in
@@ -624,7 +634,8 @@ let image_of id =
     (match List.filter (fun b -> int_of_n b.b_id = id) all with
      | b :: _ -> let bytes = blob_file_bytes (n_of_int !st_k) b.b_recs in Hashtbl.replace images id bytes; Some bytes
      | [] -> None)
-let meta_ok (m : n list) = if List.length m = 8 then List.for_all (fun x -> x = N0) m else true
+(* the tools' reader accepts a metadata image iff Format/Meta.v meta_ok does (decodes, takes exactly its bytes) *)
+let meta_ok (m : n list) = meta_ok m
 let cmd_flip = function
   | ["blob"; id; pos; mask] ->
     let id = int_of_string id and pos = int_of_string pos and mask = int_of_string ("0x" ^ mask) in
@@ -703,7 +714,7 @@ let main () =
   let n = Array.length Sys.argv in
   let i = ref 1 in
   while !i + 1 < n do
-    tainted := false; hard_taint := false; auto_q := true; Hashtbl.reset damaged_idx; st_ignore := false; st_group := 2; st_bloom_cfg := None; st_bloom_bits := None; hier_tr := ch_new (nat_of_int 2); hier_valid := true; Hashtbl.reset images; Hashtbl.reset outs; pending_evs := []; Hashtbl.reset probes; Hashtbl.reset blooms; Hashtbl.reset raws; st := init_storage; st_k := 4; st_lazy := false; st_validate := false;
+    tainted := false; hard_taint := false; auto_q := true; Hashtbl.reset damaged_idx; st_ignore := false; st_group := 2; st_bloom_cfg := None; st_bloom_bits := None; hier_tr := ch_new (nat_of_int 2); hier_valid := true; Hashtbl.reset images; Hashtbl.reset outs; pending_evs := []; Hashtbl.reset probes; Hashtbl.reset blooms; Hashtbl.reset raws; st := init_storage; st_k := 4; st_key_le := false; st_lazy := false; st_validate := false;
     st_cfg := { c_dup = true; c_maxrec = n_of_int 1000000; c_maxsize = n_of_int 1000000000 };
     run_script Sys.argv.(!i) Sys.argv.(!i + 1);
     i := !i + 2
